@@ -59,7 +59,7 @@ VARIANTS = {
     'DEPTHWISE_CONV_2D': [('m1', 1)],
     'CONV_2D_TRANSPOSE': [('bias', 1), ('nobias', 1)],
     'BATCH_MATMUL': [('const', 1), ('const_adjy', 1), ('rt', 2)],
-    'EMBEDDING_LOOKUP': [('w4', 0), ('w3', 0)],
+    'EMBEDDING_LOOKUP': [('w4', 0), ('w3', 0), ('v5', 0)],
     'SOFTMAX': [('', 1)], 'TANH': [('', 1)], 'LOGISTIC': [('', 1)],
     'GELU': [('', 1)], 'RSQRT': [('', 1)],
     'AVERAGE_POOL_2D': [('1x1', 1), ('2x2same', 1)],
@@ -407,7 +407,8 @@ def _b_bmm(c, v, ins):
 def _b_emb(c, v, ins):
   ids = c.g.ids_tensor()
   d = 4 if v == 'w4' else 3
-  w = c.fconst('table', [4, d], weight=True)
+  rows = 5 if v == 'v5' else 4   # v5: 15 elements, an odd count for int4 packing
+  w = c.fconst('table', [rows, d], weight=True)
   y = c.out([len(IDS), d])
   c.g.op(BO.EMBEDDING_LOOKUP, [ids, w], [y])
   return [y], 'IW', w
